@@ -304,6 +304,31 @@ static void gen_c16_alts(Rng &r, Case &c, const std::vector<uint8_t> &img, const
                 if (fl.len) one({D_ROT, static_cast<int64_t>(fl.off + r.below(fl.len)), static_cast<int64_t>(r.below(256)), 0}, std::string("rot.") + field_kind_name(fl.kind));
             }
         }
+        if (decoded) {
+            // semantic damage: the values of the POINT / ANALOG parameters the header updater and the data reader compute
+            // with (rates, counts, scales): every byte of the first element x the boundary values, and whole floats replaced
+            // by values at the edges of the conversions (a rate below 1, negative zero, NaN, infinity, a denormal, > 2^31)
+            static const uint32_t FV[] = {0x3e800000u /*0.25*/, 0x80000000u /*-0*/, 0x7fc00000u /*NaN*/, 0x7f800000u /*inf*/, 0x00000001u /*denormal*/, 0x4f32d05eu /*3e9*/, 0xbf800000u /*-1*/};
+            for (const RefParam &rp : rf.params) {
+                std::string gname;
+                for (const RefGroup &g : rf.groups) if (static_cast<int>(g.id) == rp.group_id) gname = g.name;
+                if (gname != "POINT" && gname != "ANALOG") continue;
+                if (rp.type < 1 || rp.raw.empty()) continue;
+                unsigned w = static_cast<unsigned>(rp.type);
+                for (unsigned bo = 0; bo < w && bo < rp.raw.size(); ++bo)
+                    for (int v : VAL) {
+                        if (!thorough && !r.chance(1, 2)) continue;
+                        one({D_ROT, static_cast<int64_t>(rp.data_off + bo), v, 0}, "rot.shape-value");
+                    }
+                if (rp.type == 4 && rp.raw.size() >= 4)
+                    for (uint32_t fv : FV) {
+                        if (!thorough && !r.chance(1, 2)) continue;
+                        std::vector<Damage> alt;
+                        for (unsigned bo = 0; bo < 4; ++bo) alt.push_back({D_ROT, static_cast<int64_t>(rp.data_off + bo), static_cast<int64_t>((fv >> (8 * bo)) & 0xff), 0});
+                        c.alts.push_back(alt); c.alt_labels.push_back("rot.shape-value");
+                    }
+            }
+        }
         for (int k = 0; k < (thorough ? 256 : 48) && S; ++k) {
             std::vector<Damage> alt;
             unsigned cnt = 1 + static_cast<unsigned>(r.below(4));
@@ -574,15 +599,9 @@ CaseResult run_case(const Case &c, volatile uint64_t *progress) {
     const std::string &prop = c.prop;
 
     if (prop == "C18") {
-        // solo digests first, then the same plans concurrently under the seeded scheduler
+        // the plans concurrently under the seeded scheduler FIRST (in a worker each case runs in its own process: whatever the
+        // library initialises at first use is initialised by the threads), then each plan alone for the reference digests
         std::vector<uint64_t> solo, conc(c.plans.size(), 0);
-        for (size_t t = 0; t < c.plans.size(); ++t) {
-            ExecCfg tc; tc.oracles = 0; tc.actor = "t" + tos(t); tc.capture_print = false;
-            RunResult rr = run_plan(c.plans[t], tc);
-            solo.push_back(rr.trace_hash);
-            merge_stats(res.st, rr.st);
-            disk_clear_prefix(disk_root() + "/t" + tos(t) + "/");
-        }
         std::vector<std::function<void()>> bodies;
         std::vector<RunResult> rrs(c.plans.size());
         for (size_t t = 0; t < c.plans.size(); ++t)
@@ -591,6 +610,14 @@ CaseResult run_case(const Case &c, volatile uint64_t *progress) {
                 rrs[t] = run_plan(c.plans[t], tc);
             });
         SchedResult sr = run_scheduled(bodies, c.sched);
+        for (size_t t = 0; t < c.plans.size(); ++t) disk_clear_prefix(disk_root() + "/t" + tos(t) + "/");
+        for (size_t t = 0; t < c.plans.size(); ++t) {
+            ExecCfg tc; tc.oracles = 0; tc.actor = "t" + tos(t); tc.capture_print = false;
+            RunResult rr = run_plan(c.plans[t], tc);
+            solo.push_back(rr.trace_hash);
+            merge_stats(res.st, rr.st);
+            disk_clear_prefix(disk_root() + "/t" + tos(t) + "/");
+        }
         uint64_t th = sr.schedule_hash;
         for (size_t t = 0; t < c.plans.size(); ++t) {
             conc[t] = rrs[t].trace_hash;
